@@ -194,6 +194,11 @@ def junk_lines(r, valid):
         'bad-id': ['[123.456] wl_surface@x.commit()', '[123.456] wl_surface@.commit()', '[123.456] wl_surface.commit()'],
         'no-dot': ['[123.456] wl_surface@3commit()', '[123.456] wl_surface@3 commit()'],
         'no-paren': ['[123.456] wl_surface@3.commit', '[123.456] wl_surface@3.commit)', '[123.456] wl_surface@3.commit('],
+        # a bracketed prefix that is not a libwayland time stamp (`[%7u.%03u]`: digits, a decimal mark, digits), followed by
+        # text shaped like a message: a pid / thread / level prefix of the program's own chatter
+        'odd-timestamp': ['[4242] worker@3.run(started)', '[7]  -> a#1.b()', '[-1.5] x@1.y()', '[2e3] x@1.y()', '[1.5e3] x@1.y(1)',
+                          '[+1.5] x@1.y()', '[1.] x@1.y()', '[.5] x@1.y()', '[1.2.3] x@1.y()', '[0x1f.0] x@1.y()', '[12 .5] x@1.y()',
+                          '[1234.567]x@1.y()', '(1234.567) x@1.y()', '[1234.567] {q x@1.y()', '[1234.567] <1 x@1.y()'],
         'bracketed-chatter': ['[debug] frame 12', '[123.456] not a message', '[12.5] wl_x@1 .y()', '[1.0] hello wl_a@1.b() x'],
     }
     pre = []
